@@ -460,6 +460,10 @@ func isLoggerPkg(p string) bool {
 
 // callWrites: heap keys a call may write (for loop havoc); all=true when unknown.
 func (fv *FnVerifier) callWrites(c *ssa.CallCommon) (keys []string, all bool) {
+	return fv.callWritesDepth(c, 0)
+}
+
+func (fv *FnVerifier) callWritesBase(c *ssa.CallCommon) (keys []string, all bool) {
 	if c.IsInvoke() {
 		fc := fv.ifaceContract(c.Value.Type(), c.Method.Name())
 		if fc == nil {
@@ -674,6 +678,12 @@ func (fv *FnVerifier) execCallCommon(c *ssa.CallCommon, instr *ssa.Call, st *Sta
 			obj = o
 		}
 		return fv.applyContract(fc, obj, fn.Signature, args, st, pos, name, nil)
+	}
+	if fn.Parent() != nil {
+		// anonymous function without captured variables, called or deferred directly: inline straight-line bodies
+		if r, done := fv.inlineFn(fn, nil, c, st, pos); done {
+			return r
+		}
 	}
 	fv.note("havoc: call without contract: " + fname)
 	fv.frameUnknownCall(pos, fname)
